@@ -72,3 +72,11 @@ Theorem C05_from_slice_no_panic : forall e o bytes p,
   from_slice e bytes o <> Panic p.
 Proof. exact from_slice_no_panic. Qed.
 Print Assumptions C05_from_slice_no_panic.
+
+(* the 1032 of the size rule is the literal of the current source (regenerated constant) *)
+From OxiVerif Require Import Proofs.SrcLiteralRatio.
+From OxiVerif Require Gen.SrcConsts.
+Theorem C05_size_rule_literal_is_source : SrcConsts.src_inflate_ratio = 1032 /\
+  forall e hd c, width hd <> 0 -> height hd <> 0 -> lenZ c < raw_data_size hd / SrcConsts.src_inflate_ratio -> png_image_new e hd c = Err ETruncated.
+Proof. split; [exact inflate_ratio_is_source|exact png_image_new_uses_ratio]. Qed.
+Print Assumptions C05_size_rule_literal_is_source.
